@@ -1,4 +1,5 @@
 import PC.Drv.LogBuf
+import PC.Drv.Pure
 /-! `pcdriver <component>`: reads protocol lines on stdin, prints `model ||| verdict` per line. -/
 open PC.Drv
 
@@ -7,4 +8,7 @@ def main (args : List String) : IO UInt32 := do
   let stdout ← IO.getStdout
   match args with
   | ["logbuf"] => loop PC.Drv.LogBuf.step stdin stdout {}; return 0
+  | ["restart"] => loop PC.Drv.Pure.restartStep stdin stdout (); return 0
+  | ["probe"] => loop PC.Drv.Pure.probeStep stdin stdout (); return 0
+  | ["atoi"] => loop PC.Drv.Pure.atoiStep stdin stdout (); return 0
   | _ => IO.eprintln "usage: pcdriver <component>"; return 2
